@@ -80,6 +80,50 @@ def twice(rec, name, gen, N, key, info):
     return a
 
 
+def ranges_section(u, rec, ic, ex, jax, jnp, g, D, keys):
+    """requested (non-default) parameter ranges: every drawn parameter of the function form lies inside the range the constructor was given
+    (positions / variances of blobs scale with the domain extent as documented), and the sampled form is that draw"""
+    N = u["Ns"][0]
+    for L in (1.0, 2.5):
+        for key in keys:
+            info = dict(D=D, N=N, L=L, key=key)
+            k = jax.random.PRNGKey(key)
+
+            def inside(x, lo, hi):
+                x = np.asarray(x, dtype=float)
+                return bool(np.all(x >= lo - 1e-12) and np.all(x <= hi + 1e-12))
+
+            if g == "RandomSineWaves1d":
+                for ar, pr in (((2.0, 3.0), (0.1, 0.2)), ((-0.5, -0.25), (3.0, 6.0))):
+                    gen = ic.RandomSineWaves1d(1, domain_extent=L, cutoff=4, amplitude_range=ar, phase_range=pr)
+                    f = gen.gen_ic_fun(key=k)
+                    rec.count(states=1, transitions=1, traces=1)
+                    rec.check(inside(f.amplitudes, *ar), f"C18/{g}/amplitude_range", "drawn amplitude outside the requested range", amplitude_range=list(ar), got=np.asarray(f.amplitudes).tolist(), **info)
+                    rec.check(inside(f.phases, *pr), f"C18/{g}/phase_range", "drawn phase outside the requested range", phase_range=list(pr), got=np.asarray(f.phases).tolist(), **info)
+                    rec.outcome("ranges", g, L, key, ar, float(np.asarray(f.amplitudes)[0]))
+            elif g == "RandomDiscontinuities":
+                for vr in ((2.0, 3.0), (-7.0, -6.5)):
+                    gen = ic.RandomDiscontinuities(D, domain_extent=L, num_discontinuities=1, value_range=vr)
+                    a = np.asarray(gen(N, key=k))
+                    rec.count(states=1, transitions=1, traces=1)
+                    nz = a[np.abs(a) > 0]
+                    rec.check(inside(nz, *vr) and len(np.unique(np.round(nz, 10))) <= 1, f"C18/{g}/value_range", "value of the discontinuity outside the requested range", value_range=list(vr),
+                              got=sorted(set(np.round(nz, 6).tolist()))[:4], **info)
+                    rec.outcome("ranges", g, L, key, vr, float(nz[0]) if nz.size else 0.0)
+            elif g == "RandomGaussianBlobs":
+                for posr, varr in (((0.1, 0.2), (0.02, 0.03)), ((0.7, 0.9), (0.001, 0.002))):
+                    gen = ic.RandomGaussianBlobs(D, domain_extent=L, num_blobs=2, position_range=posr, variance_range=varr)
+                    f = gen.gen_ic_fun(key=k)
+                    rec.count(states=1, transitions=1, traces=1)
+                    for blob in f.blob_list:
+                        cov = np.asarray(blob.covariance)
+                        rec.check(inside(blob.position, posr[0] * L, posr[1] * L), f"C18/{g}/position_range", "blob position outside the requested range (scaled by the domain extent)",
+                                  position_range=list(posr), got=np.asarray(blob.position).tolist(), **info)
+                        rec.check(inside(np.diag(cov), varr[0] * L, varr[1] * L) and np.allclose(cov, np.diag(np.diag(cov))), f"C18/{g}/variance_range",
+                                  "blob variance outside the requested range (scaled by the domain extent) / covariance not diagonal", variance_range=list(varr), got=np.diag(cov).tolist(), **info)
+                    rec.outcome("ranges", g, L, key, posr, float(np.asarray(f.blob_list[0].position)[0]))
+
+
 def run_unit(u, rec):
     import jax
     import jax.numpy as jnp
@@ -91,6 +135,7 @@ def run_unit(u, rec):
     keys = list(u["keys"]) + [100 + u["seed"]]
     rec.dim("generator", g)
     rec.dim("D", D)
+    ranges_section(u, rec, ic, ex, jax, jnp, g, D, keys)
     for N in u["Ns"]:
         rec.dim("N", N)
         W = ref.rfft_wavenumbers(D, N)
